@@ -114,7 +114,7 @@ PROPERTY_RULES = {
     "C01": ["R9", "R8", "R5", "R27", "R6", "R24", "R11", "R25", "R23", "R26", "R45", "R10", "R33", "R12", "R13", "R15", "R29", "R31", "R32", "R39", "R51"],
     "C02": ["R12", "R13", "R15", "R9", "R33", "R29", "R31", "R30", "R32", "R39", "R11", "R45", "R51"],
     "C03": ["R11", "R21"],
-    "C04": ["R40", "R41"],
+    "C04": ["R40", "R41", "R47"],
     "C05": ["R36", "R38", "R40c", "R41", "R49"],
     "C06": ["R37", "R30"],
     "C07": ["R35", "R16", "R32"],
